@@ -561,6 +561,39 @@ TEXT_KEYS = [("experiment", "sample"), ("setup", "identifier"), ("setup", "mediu
              ("pipeline", "dcnum data"), ("experiment", "run identifier")]
 
 
+FLOAT_KEYS = [("experiment", "timestamp"), ("setup", "flow rate"), ("imaging", "pixel size"),
+              ("calculation", "emodulus temperature"), ("setup", "channel width"),
+              ("online_filter", "target duration"), ("user", "x float")]
+INT_KEYS = [("experiment", "run index"), ("fluorescence", "sample rate"), ("user", "x int"),
+            ("imaging", "roi position x")]
+
+
+def random_float(rng):
+    """1-17 significant digits, magnitude 1e-12 ... 1e12"""
+    d = rng.randint(1, 17)
+    m = rng.randint(10 ** (d - 1), 10 ** d - 1)
+    e = rng.randint(-12, 12)
+    x = float(f"{m}e{e - d + 1}")
+    return -x if rng.random() < 0.3 else x
+
+
+def float_close(a, x):
+    """what `{:.12f}` guarantees: 12 decimals, i.e. |loaded - x| <= 0.5e-12 (plus half an ulp)"""
+    return abs(a - x) <= 0.5e-12 + abs(x) * 2.0 ** -52
+
+
+def file_text(path, sec, key):
+    """the text right of '=' for `key` in section `sec` of a saved configuration file"""
+    cur = None
+    for line in path.read_text(encoding="utf-8", errors="replace").splitlines():
+        ls = line.strip()
+        if ls.startswith("[") and ls.endswith("]"):
+            cur = ls[1:-1].lower()
+        elif cur == sec and line.startswith(key + " = "):
+            return line[len(key) + 3:]
+    return None
+
+
 def text_roundtrip(ctx, entries, idx):
     """entries = [(sec, key, text)].  Returns (fails, [(sec, key, rendering, loaded answer)])"""
     _dfn, cfgmod = base._mods()
@@ -584,6 +617,32 @@ def text_roundtrip(ctx, entries, idx):
         if key not in cfg[sec]:
             continue    # rejected on assignment (e.g. empty)
         w = cfg[sec][key]
+        if isinstance(w, (float, int)) and not isinstance(w, bool):
+            # numbers: value-exact to the documented precision (floats: 12 decimals)
+            if key not in loaded[sec]:
+                fails.append(f"[{sec}]:{key} = {w!r} is lost by save -> load")
+                continue
+            b, c = loaded[sec][key], again[sec].get(key)
+            try:
+                if isinstance(w, float):
+                    ok = float_close(float(b), w) and (sec == "user" or isinstance(b, float))
+                else:
+                    ok = (int(float(b)) == w) and (sec == "user" or type(b) is int)
+                stable = base.enc_safe(b) == base.enc_safe(c)
+            except Exception:
+                ok, stable = False, True
+            if not ok:
+                fails.append(f"[{sec}]:{key} = {w!r}: save -> load gives {b!r} "
+                             f"(difference {abs(float(b) - w) if ok is not None else '?'!r}; "
+                             f"floats are written with 12 decimals)")
+            elif not stable:
+                fails.append(f"[{sec}]:{key} = {w!r}: second save -> load gives {c!r}, "
+                             f"first {b!r}")
+            else:
+                raw_text = file_text(p1, sec, key)
+                if raw_text is not None and sec != "user":
+                    model.append((sec, key, raw_text, b))
+            continue
         rendering = "{}".format(w)
         t = base.clean_text(rendering)
         if t == "":
@@ -615,18 +674,23 @@ def part_text(ctx, lines, checks, spec_fail):
     for i in range(ctx.n(80, 1500)):
         keys = rng.sample(TEXT_KEYS, rng.randint(2, 6))
         entries = [(s, k, random_text(rng)) for s, k in keys]
+        entries += [(s, k, random_float(rng)) for s, k in rng.sample(FLOAT_KEYS, 3)]
+        entries += [(s, k, rng.choice([1, -1]) * rng.randint(0, 10 ** rng.randint(1, 15)))
+                    for s, k in rng.sample(INT_KEYS, 2)]
         fails, model = text_roundtrip(ctx, entries, i)
         ctx.case(("text", entries), nontrivial=True,
                  sample={"entries": entries[:3], "result": fails[:1] or "loaded values equal "
                          "the assignment of the cleaned text"} if i == 0 else None)
         ctx.stat("text_files")
         ctx.stat("text_values", len(entries))
-        ctx.stat("text_plain", sum(1 for _s, _k, t in entries if is_plain(t)))
+        ctx.stat("text_plain", sum(1 for _s, _k, t in entries if isinstance(t, str)
+                                   and is_plain(t)))
+        ctx.stat("text_numbers", sum(1 for _s, _k, t in entries if not isinstance(t, str)))
         if fails:
             small = common.ddmin(entries, lambda e: bool(text_roundtrip(ctx, e, i)[0]),
                                  max_tests=30)
             # shrink the text of the remaining entry character-wise
-            if len(small) == 1:
+            if len(small) == 1 and isinstance(small[0][2], str):
                 s, k, t = small[0]
                 chars = common.ddmin(list(t), lambda cs: bool(
                     text_roundtrip(ctx, [(s, k, "".join(cs))], i)[0]), max_tests=60)
@@ -635,13 +699,245 @@ def part_text(ctx, lines, checks, spec_fail):
             spec_fail.append((f2[0], {"kind": "text", "entries": [list(e) for e in small]}))
             continue
         for sec, key, rendering, got in model:
-            checks.append((len(lines), got + " -", f"text route [{sec}]:{key} = {rendering!r}",
-                           "nowarn", None))
+            if not isinstance(got, str):
+                # a number: the model parses the written decimal exactly; the implementation
+                # holds the nearest double
+                checks.append((len(lines), got, f"text route [{sec}]:{key} = {rendering!r}",
+                               "number", None))
+            else:
+                checks.append((len(lines), got + " -",
+                               f"text route [{sec}]:{key} = {rendering!r}", "nowarn", None))
             lines.append(f"file s:{base.enc_str(sec)} s:{base.enc_str(key)} "
                          f"s:{base.enc_str(rendering)}")
 
 
+# ------------------------------------------------------------------------------------------
+# every setting route x every kind of source object
+SOURCE_KINDS = ["dict", "cd_same", "cd_none", "cd_other", "cfg_strict", "cfg_loose", "dataset",
+                "file"]
+SOURCE_ROUTES = ["sec_update", "cfg_update", "cfg_init", "dict_init", "files"]
+SOURCE_SECTIONS = ["setup", "imaging", "experiment", "online_filter", "qpi", "fluorescence",
+                   "user", "filtering", "calculation", "online_contour"]
+
+
+def gen_source_case(rng, dfn):
+    sec = rng.choice(SOURCE_SECTIONS)
+    table = [it[0] for it in (dfn.CFG_METADATA.get(sec) or dfn.CFG_ANALYSIS.get(sec) or [])]
+    if sec == "user":
+        table = ["my key", "n", "note"]
+    if sec == "online_filter":
+        f = rng.choice(list(dfn.scalar_feature_names))
+        table = table + [f"{f} min", f"{f} soft limit", f"{f},deform polygon points"]
+    entries = []
+    for _ in range(rng.randint(2, 7)):
+        r = rng.random()
+        if r < 0.25:
+            key = rng.choice(["bogus", "shapeout legacy option", "no such key", "x y z"])
+        else:
+            key = rng.choice(table)
+        if rng.random() < 0.3:
+            key = base.random_case_key(rng, key)
+        r = rng.random()
+        if r < 0.08:
+            v = ""
+        elif r < 0.14:
+            v = None
+        elif r < 0.6 and key.lower() in table:
+            v = base.good_value(rng, dfn, sec, key.lower())
+            if rng.random() < 0.5 and not isinstance(v, (str, bytes, list, tuple, np.ndarray)):
+                v = str(v)      # needs the converter
+        else:
+            R = base.representations(rng)
+            v = R[rng.choice(list(R))]
+        try:
+            entries.append([key, base.enc(v)])
+        except base.Unencodable:
+            pass
+    kind = rng.choice(SOURCE_KINDS)
+    route = "files" if kind == "file" and rng.random() < 0.5 else \
+        rng.choice(SOURCE_ROUTES[:4])
+    return {"kind": "sources", "sec": sec, "src": kind, "route": route, "entries": entries}
+
+
+def build_source(ctx, case):
+    """returns (section-level mapping, config-level mapping, file path or None)"""
+    _dfn, cfgmod = base._mods()
+    dclab = common.import_dclab()
+    sec, kind = case["sec"], case["src"]
+    items = [(k, base.dec(t)) for k, t in case["entries"]]
+    other = "user" if sec != "user" else "setup"
+
+    def fill(d):
+        for k, v in items:
+            try:
+                d[k] = v
+            except Exception:
+                pass     # the source refuses the value: it simply does not hold it
+        return d
+    path = None
+    if kind == "dict":
+        srcsec = dict(items)
+        top = {sec: srcsec}
+    elif kind in ("cd_same", "cd_none", "cd_other"):
+        section = {"cd_same": sec, "cd_none": None, "cd_other": other}[kind]
+        srcsec = fill(cfgmod.ConfigurationDict(section=section))
+        top = {sec: srcsec}
+    elif kind in ("cfg_strict", "cfg_loose"):
+        top = cfgmod.Configuration(disable_checks=(kind == "cfg_loose"))
+        fill(top[sec])
+        srcsec = top[sec]
+    elif kind == "dataset":
+        ds = dclab.new_dataset({"deform": np.linspace(.01, .02, 5),
+                                "area_um": np.linspace(20, 200, 5)})
+        top = ds.config
+        fill(top[sec])
+        srcsec = top[sec]
+    else:   # file
+        base._COUNTER[0] += 1
+        path = ctx.workdir / f"src{base._COUNTER[0] % 8}.cfg"
+        lines_ = [f"[{sec}]"]
+        for k, v in items:
+            if isinstance(v, (str, int, float)) and not isinstance(v, bool) \
+                    and "\n" not in str(v) and k.strip() and "=" not in k and "#" not in k:
+                lines_.append(f"{k} = {v}")
+        path.write_text("\n".join(lines_) + "\n", encoding="utf-8")
+        try:
+            top = cfgmod.load_from_file(path)
+        except Exception as e:  # noqa  (a converter refuses a value of the file)
+            return e, None, path
+        srcsec = top[sec] if sec in top else cfgmod.ConfigurationDict()
+    return srcsec, top, path
+
+
+def run_source_case(ctx, case):
+    """Oracle: whatever the kind of source, the target section afterwards holds exactly what
+    assigning the source's items one by one to `ConfigurationDict(section)` gives, with the same
+    warnings.  Returns (fails, [(key, tag, answer, warns)] for the model)."""
+    _dfn, cfgmod = base._mods()
+    sec, route = case["sec"], case["route"]
+    fails, per_item = [], []
+    with warnings.catch_warnings():
+        warnings.simplefilter("ignore")
+        try:
+            srcsec, top, path = build_source(ctx, case)
+        except Exception as e:  # noqa
+            return [f"building the source raised {e!r}"[:200]], []
+        if isinstance(srcsec, Exception):
+            # the file cannot be loaded: every route from it must fail the same way
+            try:
+                cfgmod.Configuration(files=[path])
+                return [f"load_from_file raises {srcsec!r} but Configuration(files=) loads the "
+                        f"same file"], []
+            except Exception as e:  # noqa
+                if common.err_class(e) != common.err_class(srcsec):
+                    return [f"load_from_file raises {srcsec!r}, Configuration(files=) {e!r}"], []
+                return [], []
+        try:
+            src_items = [(k, srcsec[k]) for k in list(srcsec.keys())]
+        except Exception as e:  # noqa
+            return [f"reading the source raised {e!r}"[:200]], []
+    # expected: item-by-item assignment
+    exp = cfgmod.ConfigurationDict(section=sec)
+    exp_exc, exp_ws = None, set()
+    for k, v in src_items:
+        with warnings.catch_warnings(record=True) as rec:
+            warnings.simplefilter("always")
+            try:
+                exp[k] = v
+                exc = None
+            except Exception as e:  # noqa
+                exc = e
+        ws = base.warn_names(rec)
+        exp_ws |= ws
+        if isinstance(k, str):
+            try:
+                a1, ws1, _w1 = base.set_primary(sec, k, v)   # this item alone, for the model
+                per_item.append((k, base.enc(v), a1, ws1))
+            except base.Unencodable:
+                pass
+        if exc is not None:
+            exp_exc = exc
+            break
+    # the route under test
+    got_exc = None
+    tgt = None
+    with warnings.catch_warnings(record=True) as rec:
+        warnings.simplefilter("always")
+        try:
+            if route == "sec_update":
+                tgt = cfgmod.Configuration()
+                tgt[sec].update(srcsec)
+            elif route == "cfg_update":
+                tgt = cfgmod.Configuration()
+                tgt.update(top)
+            elif route == "cfg_init":
+                tgt = cfgmod.Configuration(cfg=top)
+            elif route == "dict_init":
+                tgt = {sec: cfgmod.ConfigurationDict(sec, srcsec)}
+            else:
+                tgt = cfgmod.Configuration(files=[path])
+        except Exception as e:  # noqa
+            got_exc = e
+    got_ws = base.warn_names(rec)
+    what = f"{route} from a {case['src']} source into [{sec}]"
+    if (exp_exc is None) != (got_exc is None) or (
+            exp_exc is not None and common.err_class(exp_exc) != common.err_class(got_exc)):
+        fails.append(f"{what}: raised {got_exc!r}, item-by-item assignment raises {exp_exc!r}")
+        return fails, per_item
+    if exp_exc is not None:
+        return fails, per_item
+    have = tgt[sec] if sec in tgt else {}
+    defaults = cfgmod.Configuration()
+    dflt = defaults[sec] if (sec in defaults and not isinstance(tgt, dict)) else {}
+    keys = {k.lower() for k, _v in src_items if isinstance(k, str)} | set(exp.keys())
+    for lk in sorted(keys):
+        e_has, g_has = lk in exp, lk in have
+        if not e_has and lk in dflt:
+            e_has, e_val = True, dflt[lk]
+        elif e_has:
+            e_val = exp[lk]
+        if e_has != g_has:
+            fails.append(f"{what}: key {lk!r} is {'stored' if g_has else 'missing'} "
+                         f"({have.get(lk)!r}); item-by-item assignment "
+                         f"{'stores ' + repr(e_val) if e_has else 'rejects it'}")
+        elif e_has and base.enc_safe(have[lk]) != base.enc_safe(e_val):
+            fails.append(f"{what}: key {lk!r} holds {have[lk]!r}, item-by-item assignment gives "
+                         f"{e_val!r}")
+    if (exp_ws - {"wrongType"}) - got_ws:
+        fails.append(f"{what}: warnings {base.fmt_warns(got_ws)}, item-by-item assignment warns "
+                     f"{base.fmt_warns(exp_ws)}")
+    return fails, per_item
+
+
+def part_sources(ctx, lines, checks, spec_fail):
+    dfn, _c = base._mods()
+    for i in range(ctx.n(400, 6000)):
+        case = gen_source_case(ctx.rng, dfn)
+        fails, per_item = run_source_case(ctx, case)
+        ctx.case(("sources", case["sec"], case["src"], case["route"], case["entries"]),
+                 nontrivial=True,
+                 sample=dict(case, result=fails[:1] or "equals item-by-item assignment")
+                 if i == 0 else None)
+        ctx.stat("source:" + case["src"])
+        ctx.stat("sroute:" + case["route"])
+        if fails:
+            small = common.ddmin(case["entries"], lambda e: bool(
+                run_source_case(ctx, dict(case, entries=e))[0]), max_tests=40)
+            sc = dict(case, entries=small)
+            f2 = run_source_case(ctx, sc)[0] or fails
+            spec_fail.append((f2[0], sc))
+            continue
+        for k, tag, a, ws in per_item:
+            if not isinstance(k, str) or a == "?":
+                continue
+            checks.append((len(lines), a + " " + base.fmt_warns(ws),
+                           f"source item [{case['sec']}]:{k!r} = {tag}", "nowrongtype", None))
+            lines.append(f"set s:{base.enc_str(case['sec'])} s:{base.enc_str(k)} {tag}")
+
+
 def replay_case(ctx, rp, verbose=False):
+    if rp.get("kind") == "sources":
+        return run_source_case(ctx, rp)[0]
     kind = rp.get("kind")
     if kind == "reghist":
         asks, fails = run_reg_history(ctx, rp["ops"])
